@@ -11,7 +11,8 @@ def mesh(shape, shift=(0, 0), angle=0):
     rr, cc = np.meshgrid(np.arange(nr) - np.floor(nr/2.0) - shift[0],
                          np.arange(nc) - np.floor(nc/2.0) - shift[1], 
                          indexing='ij')
-    angle = np.deg2rad(angle)
+    # (a numpy integer of 8 or 16 bits would be converted in half or single precision)
+    angle = np.deg2rad(float(angle))
     r = rr * np.cos(angle) + cc * np.sin(angle)
     c = rr * -np.sin(angle) + cc * np.cos(angle)
     return r, c
